@@ -6,7 +6,9 @@ import ScionVerif.Model.OneHop
 1. bytes ↔ numbers (`beNat`, `natBE`), field packing (`field`/`place`) for the three record layouts –
    proved from the generated bit ranges (a changed range re-checks these proofs);
 2. `ofBytes`/`toBytes` are mutually inverse on accepted buffers;
-3. list facts used by the reversal / conversion theorems.
+3. list facts used by the reversal / conversion theorems;
+4. the statement-sequence models (`Imp`) compute the summaries (`ingressImp_eq`, `egressImp_eq`, `reverseViewImp_eq`,
+   `reverseModelImp_eq`, `OneHop.reverseViewImp_eq`, `OneHop.reverseModelImp_eq`).
 Core Lean only.
 -/
 namespace ScionVerif.StdPath
@@ -579,4 +581,179 @@ theorem enc_segs (m : PathM) (hw : m.wireValid = true) :
   · simp only [mod_seg _ hseg.1.1, mod_seg _ hseg.2.1.1, mod_seg _ hseg.2.2.1]
     exact ⟨[], by simp, by simp [hseg.1.2, hseg.2.1.2, hseg.2.2.2], by simp [hseg.1.2, hseg.2.1.2, hseg.2.2.2]⟩
 
+/-! ## 4. The statement-sequence models compute the summaries
+
+`Imp` threads the receiver through reads, exits and writes in the order of the Rust source; an exit returns the
+receiver as written so far.  The `*_eq` theorems show that each statement sequence computes exactly the closed
+summary the property theorems are stated over – in particular that on every exit path no write has happened yet
+(the summaries return their input there).  A model that mirrored a write moved in front of an exit would not
+satisfy them. -/
+set_option linter.unusedSimpArgs false
+
+section ImpLemmas
+variable {σ ρ α β : Type}
+theorem Imp.get_bind (f : σ → Imp σ ρ β) (s : σ) : (Imp.get.bind f) s = f s s := rfl
+theorem Imp.exit_bind (r : ρ) (f : α → Imp σ ρ β) (s : σ) : ((Imp.exit r : Imp σ ρ α).bind f) s = (s, .inl r) := rfl
+theorem Imp.pure_bind (a : α) (f : α → Imp σ ρ β) (s : σ) : ((Imp.pure a : Imp σ ρ α).bind f) s = f a s := rfl
+theorem Imp.write_bind (g : σ → σ) (f : Unit → Imp σ ρ β) (s : σ) : ((Imp.write g).bind f) s = f () (g s) := rfl
+theorem Imp.exit_apply (r : ρ) (s : σ) : (Imp.exit r : Imp σ ρ α) s = (s, .inl r) := rfl
+theorem Imp.pure_apply (a : α) (s : σ) : (Imp.pure a : Imp σ ρ α) s = (s, .inr a) := rfl
+theorem Imp.orExit_some (a : α) (r : ρ) : (Imp.orExit (some a) r : Imp σ ρ α) = Imp.pure a := rfl
+theorem Imp.orExit_none (r : ρ) : (Imp.orExit (none : Option α) r : Imp σ ρ α) = Imp.exit r := rfl
+theorem Imp.ite_apply (c : Prop) [Decidable c] (a b : Imp σ ρ α) (s : σ) : (if c then a else b) s = if c then a s else b s := by
+  split <;> rfl
+end ImpLemmas
+
+theorem setInfoOrPanic_apply {α : Type} (ci : Nat) (info : InfoF) (s : PathV) (h : ci < s.infoCount ∧ ci < s.infos.length) :
+    (setInfoOrPanic (α := α) ci info) s = ({ s with infos := s.infos.set ci info }, .inr ()) := by
+  unfold setInfoOrPanic
+  simp only [bind, Imp.get_bind, h, and_self, ↓reduceIte]; rfl
+theorem setHopOrPanic_apply {α : Type} (ch : Nat) (hop : HopF) (s : PathV) (h : ch < s.hopCount ∧ ch < s.hops.length) :
+    (setHopOrPanic (α := α) ch hop) s = ({ s with hops := s.hops.set ch hop }, .inr ()) := by
+  unfold setHopOrPanic
+  simp only [bind, Imp.get_bind, h, and_self, ↓reduceIte]; rfl
+
+theorem hopAt_lt (p : PathV) (i : Nat) (h : HopF) (e : p.hopAt i = some h) : i < p.hopCount ∧ i < p.hops.length := by
+  unfold PathV.hopAt at e
+  split at e
+  · exact ⟨by assumption, (List.getElem?_eq_some_iff.1 e).1⟩
+  · simp at e
+theorem infoAt_lt (p : PathV) (i : Nat) (x : InfoF) (e : p.infoAt i = some x) : i < p.infoCount ∧ i < p.infos.length := by
+  unfold PathV.infoAt at e
+  split at e
+  · exact ⟨by assumption, (List.getElem?_eq_some_iff.1 e).1⟩
+  · simp at e
+
+theorem egressImp_eq (val : Validator) (p : PathV) : (egressImp val).run p = advanceEgress val p := by
+  unfold egressImp advanceEgress Imp.run
+  simp only [bind, pure, Imp.get_bind]
+  cases hs : p.segIndex p.currHf with
+  | none => simp only [Imp.orExit_none, Imp.exit_bind]
+  | some t =>
+    obtain ⟨seg, sos, eos⟩ := t
+    simp only [Imp.orExit_some, Imp.pure_bind, Imp.ite_apply]
+    by_cases hseg : seg ≠ p.currInf
+    · simp [hseg, Imp.exit_apply]
+    have hseg' : seg = p.currInf := by simpa using hseg
+    subst hseg'
+    simp only [ne_eq, not_true_eq_false, ↓reduceIte, Imp.get_bind]
+    cases hh : p.hopAt p.currHf with
+    | none => simp only [Imp.orExit_none, Imp.exit_bind]
+    | some hop =>
+      simp only [Imp.orExit_some, Imp.pure_bind, Imp.get_bind]
+      cases hi : p.infoAt p.currInf with
+      | none => simp only [Imp.orExit_none, Imp.exit_bind]
+      | some info =>
+        simp only [Imp.orExit_some, Imp.pure_bind, Imp.ite_apply, Imp.exit_apply]
+        by_cases c1 : p.currHf + 1 ≥ p.hopCount
+        · simp only [c1, ↓reduceIte]
+        by_cases c2 : p.currHf + 1 > MAX_TOTAL_HOPS
+        · simp only [c1, c2, ↓reduceIte]
+        by_cases c3 : eos = true
+        · simp only [c1, c2, c3, ↓reduceIte]
+        simp only [c1, c2, c3, ↓reduceIte]
+        have a := hopAt_lt p _ _ hh
+        have b := infoAt_lt p _ _ hi
+        have hc : p.commit p.currInf (egrInfo hop info) p.currHf (egrHop hop info) =
+            some { p with infos := p.infos.set p.currInf (egrInfo hop info), hops := p.hops.set p.currHf (egrHop hop info) } := by
+          unfold PathV.commit; rw [if_pos ⟨b.1, b.2, a.1, a.2⟩]
+        rw [hc]
+        simp only [Imp.bind, setInfoOrPanic_apply _ _ p b]
+        rw [setHopOrPanic_apply _ _ _ (by exact a)]
+        rfl
+
+theorem ingressImp_eq (val : Validator) (fi : Bool) (p : PathV) : (ingressImp val fi).run p = advanceIngress val fi p := by
+  unfold ingressImp advanceIngress Imp.run
+  simp only [bind, pure, Imp.get_bind]
+  cases hs : p.segIndex p.currHf with
+  | none => simp only [Imp.orExit_none, Imp.exit_bind]
+  | some t =>
+    obtain ⟨seg, sos, eos⟩ := t
+    simp only [Imp.orExit_some, Imp.pure_bind, Imp.ite_apply]
+    by_cases hse : (sos && eos) = true
+    · simp only [hse, ↓reduceIte, Imp.exit_apply]
+    simp only [hse, Bool.false_eq_true, ↓reduceIte]
+    by_cases hseg : seg ≠ p.currInf
+    · simp [hseg, Imp.exit_apply]
+    have hseg' : seg = p.currInf := by simpa using hseg
+    subst hseg'
+    simp only [ne_eq, not_true_eq_false, ↓reduceIte, Imp.get_bind]
+    cases hh : p.hopAt p.currHf with
+    | none => simp only [Imp.orExit_none, Imp.exit_bind]
+    | some hop =>
+      simp only [Imp.orExit_some, Imp.pure_bind, Imp.get_bind]
+      cases hi : p.infoAt p.currInf with
+      | none => simp only [Imp.orExit_none, Imp.exit_bind]
+      | some info =>
+        simp only [Imp.orExit_some, Imp.pure_bind]
+        have a := hopAt_lt p _ _ hh
+        have b := infoAt_lt p _ _ hi
+        cases hfin : decide (p.currHf + 1 ≥ p.hopCount) <;> cases eos
+        all_goals simp only [Imp.bind, Imp.pure_apply, Imp.exit_apply]
+        · -- (false, false): normal advance
+          rw [setInfoOrPanic_apply _ _ p b]; simp only []; rw [setHopOrPanic_apply _ _ _ (by exact a)]
+          unfold finishIngress PathV.commit
+          rw [if_pos ⟨b.1, b.2, a.1, a.2⟩]
+        · -- (false, true): segment change
+          simp only [Imp.ite_apply, Imp.exit_apply]
+          by_cases c : p.currHf + 1 > MAX_TOTAL_HOPS
+          · simp only [c, ↓reduceIte]
+          simp only [c, ↓reduceIte, Imp.get_bind]
+          cases hn : p.hopAt (p.currHf + 1) with
+          | none => simp only [Imp.orExit_none, Imp.exit_bind]
+          | some nh =>
+            simp only [Imp.orExit_some, Imp.pure_bind, Imp.get_bind]
+            cases hni : p.infoAt (p.currInf + 1) with
+            | none => simp only [Imp.orExit_none, Imp.exit_bind]
+            | some ni =>
+              simp only [Imp.orExit_some, Imp.pure_bind, Imp.write_bind, Imp.pure_apply]
+              rw [setInfoOrPanic_apply _ _ _ (by exact b)]; simp only []; rw [setHopOrPanic_apply _ _ _ (by exact a)]
+              unfold finishIngress PathV.commit
+              rw [if_pos (by exact ⟨b.1, b.2, a.1, a.2⟩)]
+        · -- (true, true): forward local; (true, false), the `unreachable!` arm, is closed by evaluation
+          rw [setInfoOrPanic_apply _ _ p b]; simp only []; rw [setHopOrPanic_apply _ _ _ (by exact a)]
+          unfold finishIngress PathV.commit
+          rw [if_pos ⟨b.1, b.2, a.1, a.2⟩]
+
+theorem reverseViewImp_eq (p : PathV) : reverseViewImp.run p = reverseView p := by
+  unfold reverseViewImp reverseView reversedState Imp.run
+  simp only [bind, Imp.bind, Imp.get, Imp.exit, Imp.write, pure, Imp.pure]
+  by_cases h0 : p.seg0 = 0
+  · simp [h0, Imp.exit]
+  by_cases h1 : p.seg0 + p.seg1 + p.seg2 ≤ p.currHf
+  · simp [h0, h1, Imp.exit]
+  by_cases h2 : segCountNZ p.seg1 p.seg2 ≤ p.currInf
+  · simp [h0, h1, h2, Imp.exit]
+  simp only [h0, h1, h2, if_false]
+  unfold segCountNZ
+  by_cases a : p.seg1 = 0
+  · simp [a, Imp.bind, Imp.pure, Imp.write]
+  by_cases b : p.seg2 = 0
+  · simp [a, b, Imp.bind, Imp.pure, Imp.write]
+  · simp [a, b, Imp.bind, Imp.pure, Imp.write]
+
+
+theorem reverseModelImp_eq (m : PathM) : reverseModelImp.run m = reverseModel m := by
+  unfold reverseModelImp reverseModel reversedSegs Imp.run
+  by_cases h0 : m.segs.length = 0
+  · simp [h0, bind, Imp.bind, Imp.get, Imp.exit, Imp.write, pure, Imp.pure]
+  by_cases h1 : m.hopCount ≤ m.currHf
+  · simp [h0, h1, bind, Imp.bind, Imp.get, Imp.exit, Imp.write, pure, Imp.pure]
+  by_cases h2 : m.segs.length ≤ m.currInf
+  · simp [h0, h1, h2, bind, Imp.bind, Imp.get, Imp.exit, Imp.write, pure, Imp.pure]
+  simp only [h0, h1, h2, ↓reduceIte, bind, Imp.bind, Imp.get, Imp.exit, Imp.write, pure, Imp.pure]
+  simp [PathM.hopCount, Function.comp_def]
+
 end ScionVerif.StdPath
+
+namespace ScionVerif.OneHop
+open ScionVerif.StdPath
+theorem reverseViewImp_eq (v : OneHopV) : reverseViewImp.run v = reverseView v := by
+  unfold reverseViewImp reverseView Imp.run
+  by_cases h : secondHopUnset v.info.flags v.hop1 v.hop2 = true <;>
+    simp [h, bind, Imp.bind, Imp.get, Imp.exit, Imp.write, pure, Imp.pure, InfoF.toggle]
+theorem reverseModelImp_eq (m : OneHopM) : reverseModelImp.run m = reverseModel m := by
+  unfold reverseModelImp reverseModel Imp.run
+  by_cases h : secondHopUnset m.info.flags m.hop1 m.hop2 = true <;>
+    simp [h, bind, Imp.bind, Imp.get, Imp.exit, Imp.write, pure, Imp.pure]
+end ScionVerif.OneHop
